@@ -589,3 +589,62 @@ mod tests {
         assert_eq!(dist_cmp(&[0.0, 0.0], &[3.0, 4.0], 5.000001), -1);
     }
 }
+
+// ---------------------------------------------------------------------------------------------
+// Exact simplex measures (C18): Gram determinants and circumcentres in big integers
+// ---------------------------------------------------------------------------------------------
+
+/// Gram determinant det[(p_i - p_0).(p_j - p_0)]_{i,j=1..k} of k+1 points in any ambient dimension
+/// (= (k! * k-volume)^2), exactly; returned as an f64 approximation with sign.
+pub fn gram_det(points: &[&[f64]]) -> Exact {
+    let s = scale(points);
+    let pts: Vec<Vec<BigInt>> = build(&s).unwrap();
+    let k = pts.len() - 1;
+    let d = pts[0].len();
+    let diffs: Vec<Vec<BigInt>> = (1..=k).map(|i| (0..d).map(|j| pts[i][j].sub(&pts[0][j])).collect()).collect();
+    let g: Vec<Vec<BigInt>> = (0..k).map(|a| (0..k).map(|b| (0..d).fold(BigInt::zero(), |acc, j| acc.add(&diffs[a][j].mul(&diffs[b][j])))).collect()).collect();
+    let v = det::<BigInt>(&g).unwrap();
+    let (m, e) = v.to_f64_exp();
+    Exact { sign: v.signum(), mag: unscale(m, e, s.emin, 2 * k as u32) }
+}
+
+/// Circumcentre (relative to the first point) and circumradius of a non-degenerate D-simplex in D dims,
+/// by Cramer's rule in exact integers, converted once to f64. None if exactly degenerate.
+pub fn circumsphere(points: &[&[f64]]) -> Option<(Vec<f64>, f64)> {
+    let s = scale(points);
+    let pts: Vec<Vec<BigInt>> = build(&s).unwrap();
+    let d = pts[0].len();
+    if pts.len() != d + 1 {
+        return None;
+    }
+    let two = BigInt::from_i128(2);
+    let a: Vec<Vec<BigInt>> = (1..=d).map(|i| (0..d).map(|j| pts[i][j].sub(&pts[0][j]).mul(&two)).collect()).collect();
+    let b: Vec<BigInt> = (1..=d)
+        .map(|i| {
+            (0..d).fold(BigInt::zero(), |acc, j| {
+                let df = pts[i][j].sub(&pts[0][j]);
+                acc.add(&df.mul(&df))
+            })
+        })
+        .collect();
+    let delta = det::<BigInt>(&a).unwrap();
+    if delta.is_zero() {
+        return None;
+    }
+    let (dm, de) = delta.to_f64_exp();
+    let mut c = Vec::with_capacity(d);
+    let mut r2 = 0.0f64;
+    for j in 0..d {
+        let mut m = a.clone();
+        for i in 0..d {
+            m[i][j] = b[i].clone();
+        }
+        let n = det::<BigInt>(&m).unwrap();
+        let (nm, ne) = n.to_f64_exp();
+        // x_j = N_j / Delta in scaled units; one factor 2^emin brings it back to input units
+        let x = if nm == 0.0 { 0.0 } else { (nm / dm) * 2f64.powi((ne - de) as i32 + s.emin) };
+        r2 += x * x;
+        c.push(x);
+    }
+    Some((c, r2.sqrt()))
+}
